@@ -685,7 +685,7 @@ func init() {
 				}
 			}
 		}
-		us = append(us, coldUnits(tier, "nasType", "qos", "handoff", "shared-parse")...)
+		us = append(us, coldUnits(tier, "nasType", "qos", "handoff", "shared-parse", "bad-input")...)
 		us = append(us, coldEntryUnits(tier, "nasType", "qos")...)
 		return us
 	}
